@@ -1,8 +1,7 @@
 import XMT.Props.C10
-open XMT.Props.C10
-#print axioms writers_agree
-#print axioms writers_agree_all
-#print axioms roundtrip_chunkReader
-#print axioms roundtrip_streamReader
-#print axioms truncated_chunkReader
-#print axioms truncated_streamReader
+#print axioms XMT.Props.C10.writers_agree
+#print axioms XMT.Props.C10.writers_agree_all
+#print axioms XMT.Props.C10.roundtrip_chunkReader
+#print axioms XMT.Props.C10.roundtrip_streamReader
+#print axioms XMT.Props.C10.truncated_chunkReader
+#print axioms XMT.Props.C10.truncated_streamReader
